@@ -46,6 +46,28 @@ Admissible(c, L, p) == /\ L <= Hi(c)
 \* the largest admissible level of a carrier/profile: where wrap-around shows first
 Maximal(c, L, p) == Admissible(c, L, p) /\ \A M \in Levels : Admissible(c, M, p) => M <= L
 
+(***************************************************************************)
+(* Mechanism (what numpy does with narrow integers) against the envelope,  *)
+(* on the one quantity every estimator starts from: the energy sum x_i^2   *)
+(* of a two-sample record <<L, -(L div 2)>> resp. <<L, L div 2>>.  With    *)
+(* Promote = FALSE each product and each partial sum is reduced into the   *)
+(* range of the carrier (two's complement wrap-around), as the library did *)
+(* before the repairs 664a343 / d84522a / b30c663 / 3cb7ef4; with Promote  *)
+(* = TRUE the samples are converted to floating point first, as it does    *)
+(* now.  MechanismIsExact holds for Promote = TRUE; TLC refutes it for     *)
+(* Promote = FALSE (negative control in bin/selftest).  Carriers of up to  *)
+(* 16 bits only: TLC integers are 32 bits wide.                            *)
+(***************************************************************************)
+CONSTANT Promote
+
+Narrow == {"int8", "uint8", "int16"}
+Wrap(v, c) == LET m == Hi(c) - Lo(c) + 1 IN ((v - Lo(c)) % m) + Lo(c)
+Pair(L, p) == IF p = "signed" THEN <<L, -(L \div 2)>> ELSE <<L, L \div 2>>
+ExactEnergy(L, p) == Pair(L, p)[1] * Pair(L, p)[1] + Pair(L, p)[2] * Pair(L, p)[2]
+MechEnergy(c, L, p) ==
+    IF Promote \/ c \notin Narrow THEN ExactEnergy(L, p)
+    ELSE Wrap(Wrap(Pair(L, p)[1] * Pair(L, p)[1], c) + Wrap(Pair(L, p)[2] * Pair(L, p)[2], c), c)
+
 VARIABLES phase,     \* "idle" | "called"
           call,      \* [token, carrier, level, profile]
           res        \* what the call returned, abstractly: the <<token, level, profile>> whose float64 result it equals
@@ -67,6 +89,8 @@ Next == \E t \in 1..NTokens, c \in Carriers, L \in Levels, p \in Profiles : Call
 Spec == Init /\ [][Next]_vars
 
 CarrierFree == phase = "called" => res = <<call.token, call.level, call.profile>>
+MechanismIsExact == (phase = "called" /\ call.carrier \in Narrow) =>
+                        MechEnergy(call.carrier, call.level, call.profile) = ExactEnergy(call.level, call.profile)
 \* vacuity guards: every carrier has an admissible record (checked by the harness on the dump) and
 \* the bounded carriers all have a maximal level above the square root of their range (products overflow)
 EveryCarrierUsable == \A c \in Carriers : \E L \in Levels, p \in Profiles : Admissible(c, L, p)
